@@ -8,6 +8,8 @@
     the state produced by NewPersistentBlockList + NewPeriodicSyncer, for any
     persistent state, any allocator answers, any hash seeds. *)
 From BBS Require Import Common.Sx Persist.PBL Persist.PBLProofs Persist.Syncer Persist.SyncerProofs Run.R07.
+From BBS Require Import Persist.LiveActs Persist.LiveCover Persist.LiveRelease Persist.LiveFair Persist.LivePut
+  Persist.LiveBound Persist.LiveEpoch Persist.LiveTop.
 Local Open Scope nat_scope.
 
 (** No schedule makes any step panic: in particular no wake-up channel is
@@ -108,8 +110,9 @@ Theorem failed_data_sync_is_retried : forall cfg s keep final t,
 Proof. exact failed_sync_is_retried. Qed.
 Print Assumptions failed_data_sync_is_retried.
 
-(** Ranking on the loops' program counters, per commit cycle (PARTIAL, see the
-    note below): every own step of a loop that is not a failed I/O call
+(** Ranking on the loops' program counters, per commit cycle (the names keep
+    `_partial`: these are the per-cycle rank lemmas; the full statements —
+    coverage, bounded liveness, commit bound — follow below): every own step of a loop that is not a failed I/O call
     strictly decreases the loop's rank, or it is the last step of
     writePersistentState — NotifyPersistentStateWritten, which releases exactly
     the blocks recorded by the preceding GetPersistentState; a failed I/O call
@@ -135,27 +138,309 @@ Theorem put_rank_partial : forall cfg alloc oldest init t0 s, reachable cfg allo
 Proof. exact put_rank_reach. Qed.
 Print Assumptions put_rank_partial.
 
-(** NOT PROVED (kept as the full statements; what is proved instead is the
-    `_never_stalls` pair (never disabled while work is pending), the retry
-    theorems and the per-cycle `_rank_partial` pair; missing is the link from
-    "a cycle completes" to "THIS upload / THESE blocks are covered", which
-    needs ghost state relating [s_writes] to acknowledged uploads, and the
-    fair-schedule liveness corollary):
+(** ---- COVERAGE (the link from "a commit cycle completes" to "THIS upload /
+    THESE blocks are covered"; ghost bookkeeping = functions of the executed
+    schedule, Persist/LiveActs.v: [act_of s e] = the PersistentBlockList call
+    performed by step [e] in state [s]; [sync_starts] = NotifySyncStarting
+    followed by a DataSyncer call; [sync_completes] = NotifySyncCompleted;
+    [AGetState t] = loop t calls GetPersistentState and starts
+    WritePersistentState; [AWritten t] = NotifyPersistentStateWritten). ---- *)
 
-    put_rank / release_rank : sys -> nat -> nat  (target = number of blocks to be
-    released resp. absolute epoch to be committed) with
-      (a) every own non-failure step of the loop decreases the rank when it is > 0;
-      (b) a failed I/O step increases it by at most one loop length K and is followed by a retry;
-      (c) steps of other threads never increase it;
-      (d) rank 0 <-> a state write omitting the released blocks (they are in releasedLog)
-          resp. covering the epoch has completed ([s_writes]);
-      liveness : forall tr, run cfg s tr = Some (Ok s') ->
-          (number of own non-failure steps in tr) >= rank s + K * (failures in tr) -> rank s' = 0
-      (weak fairness and finitely many failures as hypotheses), and
-      upload_commit_bound (the state write starts no later than max(t, last)+interval plus I/O steps).
-    The correspondence monitor checks the observable consequence on every
-    implementation run (clauses 1, 4, 5, 6 of Run/R07.v: pending work with an
-    idle loop; completed write not covering an acknowledged upload). *)
+(** upload_covered_by_next_commit.  The whole schedule is
+      ... (reaching s1) ; finalizer k returns FinOk off [step i] ; trA ;
+      e2 = a step starting a data sync ; trB ; e3 = a step completing a data
+      sync ; trC ; e4 = a step of loop t starting a state write
+    with trA, trB, trC ARBITRARY schedules.  Then the object's block has been
+    released by PopFront in the meantime, or the state passed to the store
+    covers the object [o] (= obj_of: absolute block index, block location, end
+    offset off+size, its epoch = the last epoch when the finalizer returned,
+    that epoch's seed): the state's entry number (abs - totalBlocksReleased) is
+    the object's block with write_offset >= off+size, and the object's epoch is
+    among the state's epochs — the seed at position (epoch index - d) of the
+    concatenated epoch_hash_seeds is the epoch's seed, [d] = number of epochs
+    PopFront removed in between ([popsum]).  This holds for EVERY state write
+    started after the sync completion, in particular for the first, by either
+    loop. *)
+Theorem upload_covered_by_next_commit : forall cfg alloc oldest init t0
+    s1 k blk seed s1' abs size off p' trA s2 e2 s2' trB s3 e3 s3' trC s4 e4 s4' t,
+  reachable cfg alloc oldest init t0 s1 ->
+  step cfg s1 (EFinalize k blk seed) = Some (Ok s1') ->
+  nth_error (s_uploads s1) k = Some (Some (PutAt abs, size)) ->
+  put_finalize (PutAt abs) blk size seed (s_pbl s1) = Ok (p', FinOk off) ->
+  run cfg s1' trA = Some (Ok s2) -> step cfg s2 e2 = Some (Ok s2') -> sync_starts s2 e2 = true ->
+  run cfg s2' trB = Some (Ok s3) -> step cfg s3 e3 = Some (Ok s3') -> sync_completes s3 e3 = true ->
+  run cfg s3' trC = Some (Ok s4) -> step cfg s4 e4 = Some (Ok s4') -> act_of s4 e4 = AGetState t ->
+  let o := obj_of (s_pbl s1) p' abs (off + size) in
+  let d := popsum cfg s1' trA + popsum cfg s2' trB + popsum cfg s3' trC in
+  abs < totalReleased (s_pbl s4) \/
+  exists st, written_state s4' t = Some st /\ covers st (abs - totalReleased (s_pbl s4)) o (o_epoch o - d).
+Proof. exact upload_covered_reach. Qed.
+Print Assumptions upload_covered_by_next_commit.
+
+(** ... and the epoch ID: the reference (EpochID, BlocksFromLast) and hash seed
+    that BlockIndexToBlockReference computes on the block list right after the
+    finalizer (what the key-location map stores for the object) has EpochID =
+    the written state's oldest_epoch_id + (epoch index - d) in uint32
+    arithmetic — the position at which [covers] finds the same seed. *)
+Theorem upload_covered_epoch_id : forall cfg alloc oldest init t0
+    s1 k blk seed s1' abs size off p' trA s2 e2 s2' trB s3 e3 s3' trC s4 e4 s4' t,
+  reachable cfg alloc oldest init t0 s1 ->
+  step cfg s1 (EFinalize k blk seed) = Some (Ok s1') ->
+  nth_error (s_uploads s1) k = Some (Some (PutAt abs, size)) ->
+  put_finalize (PutAt abs) blk size seed (s_pbl s1) = Ok (p', FinOk off) ->
+  run cfg s1' trA = Some (Ok s2) -> step cfg s2 e2 = Some (Ok s2') -> sync_starts s2 e2 = true ->
+  run cfg s2' trB = Some (Ok s3) -> step cfg s3 e3 = Some (Ok s3') -> sync_completes s3 e3 = true ->
+  run cfg s3' trC = Some (Ok s4) -> step cfg s4 e4 = Some (Ok s4') -> act_of s4 e4 = AGetState t ->
+  let o := obj_of (s_pbl s1) p' abs (off + size) in
+  let d := popsum cfg s1' trA + popsum cfg s2' trB + popsum cfg s3' trC in
+  abs < totalReleased (s_pbl s4) \/
+  exists st ref, written_state s4' t = Some st
+    /\ index_to_ref (abs - totalReleased p') p' = Ok (ref, o_seed o)
+    /\ d <= o_epoch o
+    /\ fst ref = u32 (fst st + N.of_nat (o_epoch o - d)).
+Proof. exact upload_covered_epoch_id_reach. Qed.
+Print Assumptions upload_covered_epoch_id.
+
+(** release_covered.  Schedule = ... (reaching s1) ; PopFront removing block fb
+    [step i] ; trA = any schedule without a GetPersistentState ; e4 = loop t
+    starts a state write (so: the FIRST state write started after i).  Then
+    (a) fb is among the blocks recorded by that GetPersistentState
+        (blocksToRelease at that moment);
+    (b) fb is absent from the state written: every entry j of the state is
+        block j of the current list, i.e. the block with absolute index
+        totalBlocksReleased(s4) + j, and totalBlocksReleased(s4) exceeds fb's
+        absolute index totalBlocksReleased(s1);
+    (c) whenever, after any further schedule trB without another
+        GetPersistentState, some loop t' runs NotifyPersistentStateWritten,
+        then t' = t (it is that write; it did not fail) and exactly the
+        recorded blocks are appended to releasedLog (Block.Release() calls). *)
+Theorem release_covered : forall cfg alloc oldest init t0 s1 fb rest s1' trA s4 e4 s4' t,
+  reachable cfg alloc oldest init t0 s1 ->
+  blocks (s_pbl s1) = fb :: rest -> step cfg s1 EPopFront = Some (Ok s1') ->
+  run cfg s1' trA = Some (Ok s4) -> no_getstate cfg s1' trA = true ->
+  step cfg s4 e4 = Some (Ok s4') -> act_of s4 e4 = AGetState t ->
+  In (b_loc fb) (toRelease (s_pbl s4))
+  /\ totalReleased (s_pbl s1) < totalReleased (s_pbl s4)
+  /\ (exists st, written_state s4' t = Some st /\
+        forall j e, nth_error (snd st) j = Some e ->
+          exists b, nth_error (blocks (s_pbl s4)) j = Some b /\ bs_loc e = b_loc b)
+  /\ forall trB s5 e5 s5' t',
+       run cfg s4' trB = Some (Ok s5) -> no_getstate cfg s4' trB = true ->
+       step cfg s5 e5 = Some (Ok s5') -> act_of s5 e5 = AWritten t' ->
+       t' = t /\ releasedLog (s_pbl s5') = releasedLog (s_pbl s5) ++ toRelease (s_pbl s4).
+Proof. exact release_covered_reach. Qed.
+Print Assumptions release_covered.
+
+(** ---- LIVENESS in bounded form (no infinite traces): [fair ext] = the
+    extension consists only of steps of the two syncer loops whose I/O call
+    succeeds / whose select takes a ready case, and of clock advances (timer
+    firings).  Weak fairness + finitely many injected failures on an infinite
+    schedule imply that such a stretch eventually occurs; the theorems say
+    that after it the commit has happened, and bound its length. ---- *)
+
+(** every_release_eventually_committed: after ANY schedule prefix that leaves a
+    popped block unreleased there is a fair extension of at most 10 events
+    (<= 3 to let the holder of storeLock finish, one clock advance past a retry
+    sleep, <= 6 of the release loop itself; no minimum-interval wait) after
+    which all blocks awaiting release have been Release()d, in order. *)
+Theorem every_release_eventually_committed : forall cfg alloc oldest init t0 s,
+  reachable cfg alloc oldest init t0 s -> toRelease (s_pbl s) <> nil ->
+  exists ext s', fair ext = true /\ length ext <= 10 /\ run cfg s ext = Some (Ok s')
+    /\ toRelease (s_pbl s') = nil
+    /\ releasedLog (s_pbl s') = (releasedLog (s_pbl s) ++ toRelease (s_pbl s))%list.
+Proof. exact release_eventually_reach. Qed.
+Print Assumptions every_release_eventually_committed.
+
+(** every_upload_eventually_committed: take ANY schedule [trp] after the
+    finalizer of an upload returned FinOk.  Then there is a fair extension of at
+    most 35 events (the put loop's own steps, <= 3 steps of the release loop when
+    it holds storeLock, clock advances past the interval timer / retry sleeps)
+    after which the upload's block has been released by PopFront, or
+    [scan ... = PhDone]: the executed schedule trp ++ ext contains, after the
+    acknowledgement and in this order, the start of a data sync, its completion,
+    a GetPersistentState of some loop and that same write's
+    NotifyPersistentStateWritten — and a completed state write ([s_writes]) whose
+    state covers the object.  The policy of the extension is explicit
+    (LivePut.choose) and the bound is a rank (LivePut.rank <= 35) that every chunk
+    of the policy lowers by its length (LivePut.progress_ph0..3). *)
+Theorem every_upload_eventually_committed : forall cfg alloc oldest init t0
+    s1 k blk seed s1' abs size off p' trp s,
+  reachable cfg alloc oldest init t0 s1 ->
+  step cfg s1 (EFinalize k blk seed) = Some (Ok s1') ->
+  nth_error (s_uploads s1) k = Some (Some (PutAt abs, size)) ->
+  put_finalize (PutAt abs) blk size seed (s_pbl s1) = Ok (p', FinOk off) ->
+  run cfg s1' trp = Some (Ok s) ->
+  exists ext s', fair ext = true /\ length ext <= 35 /\ run cfg s ext = Some (Ok s')
+    /\ (abs < totalReleased (s_pbl s')
+        \/ (scan cfg Ph0 s1' (trp ++ ext) = PhDone /\
+            exists w bi ei, In w (s_writes s') /\
+              covers (w_state w) bi (obj_of (s_pbl s1) p' abs (off + size)) ei)).
+Proof. exact upload_eventually. Qed.
+Print Assumptions every_upload_eventually_committed.
+
+(** upload_commit_bound, in terms of the virtual clock values of the model: an
+    upload is acknowledged at time t = s_now s1 with lastSynchronizationTime =
+    s_last s1.  Take any schedule [tr] afterwards during which no data sync has
+    started yet ([scan ... = Ph0]) and which is [urgent]: the clock never
+    advances while the put loop has an enabled internal step (its lock-protected
+    sections and channel selects take no virtual time; I/O calls, sleeps, the
+    timer and waiting for storeLock may).  Then, unless the upload's block has
+    been released, whenever the put loop waits on its interval timer the
+    deadline is at most max(t, lastSynchronizationTime) + minimumEpochInterval,
+    and lastSynchronizationTime is unchanged until that timer fires (no other
+    sync is scheduled in between: ONE interval, not two).  The covering sync is
+    started by the step after that timer (or immediately on shutdown); what
+    else separates it from t is I/O of the cycle in flight and timer latency. *)
+Theorem upload_commit_bound : forall cfg alloc oldest init t0 s1 k blk seed s1' abs size off p' tr s,
+  reachable cfg alloc oldest init t0 s1 ->
+  step cfg s1 (EFinalize k blk seed) = Some (Ok s1') ->
+  nth_error (s_uploads s1) k = Some (Some (PutAt abs, size)) ->
+  put_finalize (PutAt abs) blk size seed (s_pbl s1) = Ok (p', FinOk off) ->
+  run cfg s1' tr = Some (Ok s) -> urgent cfg s1' tr = true ->
+  scan cfg Ph0 s1' tr = Ph0 ->
+  abs < totalReleased (s_pbl s) \/
+  ((forall dl, s_p s = PTimer dl -> (dl <= N.max (s_now s1) (s_last s1) + c_interval cfg)%N)
+   /\ (s_p s <> PNotify true -> s_last s = s_last s1)).
+Proof. intros; eapply commit_bound; eauto. Qed.
+Print Assumptions upload_commit_bound.
+
+(** What is NOT stated: liveness over infinite traces (the bounded form above
+    replaces it: weak fairness + finitely many injected failures give a fair
+    stretch of the required length); a bound in wall-clock terms (the model's
+    clock is virtual; I/O durations and timer latency are the environment's). *)
+
+(** Non-vacuity of the coverage / liveness / bound theorems: empty store,
+    PushBack, Put of 5 bytes, finalizer (epoch 0, seed 77) at time 0; the
+    hypotheses of the theorems are met by the schedule of the example below and
+    the state written is (0, [block (0,100) write_offset 5 seeds [77]]). *)
+Example upload_covered_example :
+  let cfg := mkConfig 10 3 in
+  let s0 := init_sys (fst (pbl_new (fun _ _ => false) 0 nil)) 0 in
+  let ok := EStep TP (mkAns true 0) in
+  let r := EStep TR (mkAns true 0) in
+  let pre := (r :: ok :: ok :: EPushBack (Some (0, 100)%Z) :: EPutStart 0 5 :: nil)%list in
+  let trA := (ok :: ETick 10 :: EStep TP (mkAns false 10) :: nil)%list in
+  match run cfg s0 pre with
+  | Some (Ok s1) =>
+    match step cfg s1 (EFinalize 0 (Some 0%Z) 77) with
+    | Some (Ok s1') =>
+      match run cfg s1' trA with
+      | Some (Ok s2) =>
+        match step cfg s2 ok with
+        | Some (Ok s2') =>
+          match run cfg s2' (ok :: nil)%list with
+          | Some (Ok s3) =>
+            match step cfg s3 ok with
+            | Some (Ok s3') =>
+              match run cfg s3' (ok :: nil)%list with
+              | Some (Ok s4) =>
+                match step cfg s4 ok with
+                | Some (Ok s4') =>
+                    nth_error (s_uploads s1) 0 = Some (Some (PutAt 0, 5%Z))
+                    /\ (exists p', put_finalize (PutAt 0) (Some 0%Z) 5 77 (s_pbl s1) = Ok (p', FinOk 0))
+                    /\ sync_starts s2 ok = true /\ sync_completes s3 ok = true
+                    /\ act_of s4 ok = AGetState TP
+                    /\ written_state s4' TP = Some (0%N, (mkBstate (0, 100)%Z 5%Z (77%N :: nil) :: nil)%list)
+                    /\ obj_of (s_pbl s1) (s_pbl s1') 0 5 = mkObj 0 (0, 100)%Z 5 0 77
+                    /\ urgent cfg s1' trA = true /\ scan cfg Ph0 s1' trA = Ph0
+                    /\ s_p s2 = PNotify true /\ s_sched s2 = (10%N :: nil)%list
+                    /\ scan cfg Ph0 s1' (trA ++ ok :: ok :: ok :: ok :: ok :: ok :: ok :: nil)%list = PhDone
+                | _ => False
+                end
+              | _ => False
+              end
+            | _ => False
+            end
+          | _ => False
+          end
+        | _ => False
+        end
+      | _ => False
+      end
+    | _ => False
+    end
+  | _ => False
+  end.
+Proof. vm_compute. repeat split; try reflexivity. eexists. reflexivity. Qed.
+
+(** The hypothesis "a data sync that STARTED after the acknowledgement" is
+    needed: upload B (bytes 5..10, new epoch, seed 78) is acknowledged while the
+    sync started for upload A is in flight; that sync completes afterwards and
+    the state written next has write_offset 5 and only A's epoch. *)
+Example sync_started_before_ack_does_not_cover :
+  let cfg := mkConfig 10 3 in
+  let s0 := init_sys (fst (pbl_new (fun _ _ => false) 0 nil)) 0 in
+  let ok := EStep TP (mkAns true 0) in
+  let pre := (ok :: ok :: EPushBack (Some (0, 100)%Z) :: EPutStart 0 5 :: EFinalize 0 (Some 0%Z) 77
+              :: ok :: ETick 10 :: EStep TP (mkAns false 10) :: ok (* NotifySyncStarting; sync A in flight *)
+              :: EPutStart 0 5 :: nil)%list in
+  match run cfg s0 pre with
+  | Some (Ok s1) =>
+    match step cfg s1 (EFinalize 1 (Some 5%Z) 78) with
+    | Some (Ok s1') =>
+      match run cfg s1' (ok :: nil)%list with
+      | Some (Ok s3) =>
+        match step cfg s3 ok with
+        | Some (Ok s3') =>
+          match run cfg s3' (ok :: nil)%list with
+          | Some (Ok s4) =>
+            match step cfg s4 ok with
+            | Some (Ok s4') =>
+                (exists p', put_finalize (PutAt 0) (Some 5%Z) 5 78 (s_pbl s1) = Ok (p', FinOk 5))
+                /\ sync_completes s3 ok = true /\ act_of s4 ok = AGetState TP
+                /\ scan cfg Ph0 s1' (ok :: ok :: ok :: ok :: nil)%list = Ph0
+                /\ written_state s4' TP = Some (0%N, (mkBstate (0, 100)%Z 5%Z (77%N :: nil) :: nil)%list)
+                /\ obj_of (s_pbl s1) (s_pbl s1') 0 10 = mkObj 0 (0, 100)%Z 10 1 78
+            | _ => False
+            end
+          | _ => False
+          end
+        | _ => False
+        end
+      | _ => False
+      end
+    | _ => False
+    end
+  | _ => False
+  end.
+Proof. vm_compute. repeat split; try reflexivity. eexists. reflexivity. Qed.
+
+(** ... and of release_covered: PopFront, then the release loop's write. *)
+Example release_covered_example :
+  let cfg := mkConfig 10 3 in
+  let s0 := init_sys (fst (pbl_new (fun _ _ => false) 0 nil)) 0 in
+  let r := EStep TR (mkAns true 0) in
+  let pre := (r :: EPushBack (Some (0, 100)%Z) :: EPushBack (Some (100, 100)%Z) :: nil)%list in
+  match run cfg s0 pre with
+  | Some (Ok s1) =>
+    match step cfg s1 EPopFront with
+    | Some (Ok s1') =>
+      match run cfg s1' (r :: r :: nil)%list with
+      | Some (Ok s4) =>
+        match step cfg s4 r with
+        | Some (Ok s4') =>
+          match run cfg s4' (r :: nil)%list with
+          | Some (Ok s5) =>
+            match step cfg s5 r with
+            | Some (Ok s5') =>
+                no_getstate cfg s1' (r :: r :: nil)%list = true /\ act_of s4 r = AGetState TR
+                /\ no_getstate cfg s4' (r :: nil)%list = true /\ act_of s5 r = AWritten TR
+                /\ toRelease (s_pbl s4) = ((0, 100)%Z :: nil)%list
+                /\ releasedLog (s_pbl s5') = ((0, 100)%Z :: nil)%list
+                /\ written_state s4' TR = Some (0%N, nil)
+            | _ => False
+            end
+          | _ => False
+          end
+        | _ => False
+        end
+      | _ => False
+      end
+    | _ => False
+    end
+  | _ => False
+  end.
+Proof. vm_compute. repeat split; reflexivity. Qed.
 
 (** Non-vacuity: an empty store; PushBack, Put + finalizer (creates epoch 0,
     closes the put channel), interval elapses, timer fires, sync ok, state
